@@ -10,6 +10,7 @@ import MpirProofs.Lemmas.GcdExtZ
 import MpirProofs.Lemmas.GcdJacobi
 import MpirProofs.Lemmas.GcdKronW
 import MpirProofs.Lemmas.GcdLehmer2
+import MpirProofs.Lemmas.GcdLehmer3
 namespace Mpir.C07
 open Mpir Mpir.Gcd
 
@@ -87,6 +88,22 @@ theorem mpn_gcd_correct_partial (hh : Hgcd2Contract) : MpnGcdContract := mpn_gcd
 
 example : mpn_gcd (3 ^ 50 * 7 ^ 30) 3 (3 ^ 45 * 5 ^ 20) 2 = 3 ^ 45 := by decide +kernel
 example : (subdivStep 240 46).a = 10 ∧ (subdivStep 240 46).b = 46 := by decide +kernel
+
+/-- PARTIAL (full statement: `MpnGcdextContract`, i.e. additionally the normalisation S = 1 ∨
+    2·G·|S| < V, S = 0 ↔ V ∣ U, and all sizes).  The executable value-level model of mpn_gcdext below
+    GCDEXT_DC_THRESHOLD — initial division, mpn_gcdext_lehmer_n with the cofactor hooks of
+    mpn_gcd_subdiv_step, the mpn_hgcd_mul_matrix1_vector updates, the final mpn_gcdext_1 combination
+    S = u·u1 - v·u0 and the "smaller cofactor" choices — returns G = gcd(U, V) and a cofactor with
+    V ∣ G - U·S, ASSUMING the hgcd2 contract.  Missing: the size bound of the cofactor (needs the
+    |u0|, |u1| ≤ B/min(a, b) analysis) and the mpn_hgcd range. -/
+theorem mpn_gcdext_identity_partial (hh : Hgcd2Contract) (U V : Nat) (hV0 : 0 < V)
+    (hle : nlimbs V ≤ nlimbs U) (hlt : nlimbs V < GCDEXT_DC_THRESHOLD) :
+    (mpn_gcdext U (nlimbs U) V (nlimbs V)).1 = Nat.gcd U V ∧
+    (((mpn_gcdext U (nlimbs U) V (nlimbs V)).1 : Int) - U * (mpn_gcdext U (nlimbs U) V (nlimbs V)).2) % V = 0 :=
+  mpn_gcdext_identity hh U V hV0 hle hlt
+
+example : mpn_gcdext 240 1 46 1 = (2, -9) := by decide +kernel
+example : mpn_gcdext (3 ^ 50 * 7 ^ 30) 3 (3 ^ 45 * 5 ^ 20) 2 = (3 ^ 45, 14541962523518) := by decide +kernel
 
 /-! ## Single-limb functions -/
 
